@@ -36,7 +36,17 @@ Inductive case :=
 | CLive (pubs : list bytes) (nchan k : N) (ts_lo ts_hi : Z) (dels : list (N * bytes))
   (* a live path, large bodies: the harness decoded the frames; the body key is
      [length; 8-byte digest] *)
-| CLiveDigest (pubs : list bytes) (nchan k : N) (ts_lo ts_hi : Z) (dels : list dlv) (harness_equal : bool).
+| CLiveDigest (pubs : list bytes) (nchan k : N) (ts_lo ts_hi : Z) (dels : list dlv) (harness_equal : bool)
+  (* everything ONE consumer connection received between its SUB and the end, frame by frame
+     in arrival order (heartbeats left out): (frame type, data); the data of a message frame
+     is its 26-byte header followed by the body key [length; 8-byte digest] (the harness
+     compared the bodies byte for byte: harness_equal).  pubs: the keys of the messages
+     published (and acknowledged) to the connection's channel, each to be delivered once;
+     cmds: the commands the connection itself sent that draw a response, in the order sent
+     (0 answered OK: SUB, PUB, MPUB, DPUB; 1/2/3: FIN/REQ/TOUCH of an id that is not in
+     flight; 4 CLS).  clean: the harness read the stream to its end frame by frame: no
+     read error, no impossible frame header, no bytes left over. *)
+| CConn (pubs : list bytes) (ts_lo ts_hi : Z) (cmds : list N) (frames : list (Z * bytes)) (harness_equal clean : bool).
 
 (* ------------------------------------------------------------------ helpers *)
 Definition mk (ts : Z) (att : N) (id body : bytes) : wmsg := mkMsg id body ts att 0.
@@ -149,6 +159,58 @@ Fixpoint decode_all (l : list (N * bytes)) : option (list dlv) :=
       end
   end.
 
+(* ------------------------------------------------------------------ one connection's stream *)
+Definition resp_OK : bytes := [79; 75]%N.
+Definition resp_CLOSE_WAIT : bytes := [67; 76; 79; 83; 69; 95; 87; 65; 73; 84]%N.
+Definition err_FIN_FAILED : bytes := [69; 95; 70; 73; 78; 95; 70; 65; 73; 76; 69; 68]%N.
+Definition err_REQ_FAILED : bytes := [69; 95; 82; 69; 81; 95; 70; 65; 73; 76; 69; 68]%N.
+Definition err_TOUCH_FAILED : bytes := [69; 95; 84; 79; 85; 67; 72; 95; 70; 65; 73; 76; 69; 68]%N.
+
+(* the frame a command draws: (frame type, data / error code) *)
+Definition resp_of_cmd (c : N) : Z * bytes :=
+  match c with
+  | 0%N => (nsqd_frameTypeResponse, resp_OK)
+  | 1%N => (nsqd_frameTypeError, err_FIN_FAILED)
+  | 2%N => (nsqd_frameTypeError, err_REQ_FAILED)
+  | 3%N => (nsqd_frameTypeError, err_TOUCH_FAILED)
+  | 4%N => (nsqd_frameTypeResponse, resp_CLOSE_WAIT)
+  | _ => (-1, [])
+  end.
+
+(* an error frame is compared by its code: the bytes before the first space *)
+Fixpoint first_word (b : bytes) : bytes :=
+  match b with
+  | [] => []
+  | x :: r => if (x =? 32)%N then [] else x :: first_word r
+  end.
+
+Definition is_msg_frame (f : Z * bytes) : bool := fst f =? nsqd_frameTypeMessage.
+
+Definition conn_msgs (frames : list (Z * bytes)) : list (N * bytes) :=
+  map (fun f => (0%N, snd f)) (filter is_msg_frame frames).
+
+Definition conn_resps (frames : list (Z * bytes)) : list (Z * bytes) :=
+  filter (fun f => negb (is_msg_frame f)) frames.
+
+(* the property on the other frames of the connection: exactly one frame per command, in the
+   order of the commands, of the right type and with the right code *)
+Fixpoint all2 {A B : Type} (p : A -> B -> bool) (x : list A) (y : list B) : bool :=
+  match x, y with
+  | [], [] => true
+  | a :: x', b :: y' => p a b && all2 p x' y'
+  | _, _ => false
+  end.
+
+Definition resps_match (cmds : list N) (rs : list (Z * bytes)) : bool :=
+  all2 (fun c r => (fst (resp_of_cmd c) =? fst r) && bytes_eqb (snd (resp_of_cmd c)) (first_word (snd r))) cmds rs.
+
+(* the model's prediction: a response frame carries exactly the response bytes *)
+Definition resps_exact (cmds : list N) (rs : list (Z * bytes)) : bool :=
+  all2 (fun c r =>
+    (fst (resp_of_cmd c) =? fst r) &&
+    (if fst r =? nsqd_frameTypeResponse then bytes_eqb (snd (resp_of_cmd c)) (snd r)
+     else bytes_eqb (snd (resp_of_cmd c)) (first_word (snd r)))) cmds rs.
+
 (* ------------------------------------------------------------------ the judge *)
 Definition judge (c : case) : N :=
   match c with
@@ -252,4 +314,14 @@ Definition judge (c : case) : N :=
       end
   | CLiveDigest pubs nchan k lo hi ds harness_equal =>
       verdict (live_agree pubs nchan ds) (harness_equal && live_monitor pubs nchan k lo hi ds)
+  | CConn pubs lo hi cmds frames harness_equal clean =>
+      match decode_all (conn_msgs frames) with
+      | Some ds =>
+          verdict (live_agree pubs 1%N ds && resps_exact cmds (conn_resps frames))
+                  (clean && harness_equal &&
+                   forallb (fun f => (0 <=? fst f) && (fst f <=? 2)) frames &&
+                   live_monitor pubs 1%N 1%N lo hi ds &&
+                   resps_match cmds (conn_resps frames))
+      | None => 3%N
+      end
   end.
